@@ -3184,7 +3184,7 @@ def _update_gradient(m: types.Model, d: types.Data, ctx: SolverContext, compact:
         dim_block = ceil((sm_count * 6 * 256) / m.dof_tri_row.size)
       else:
         # fall back for CPU
-        dim_block = d.naconmax
+        dim_block = max(d.naconmax, 1)
 
       nblocks_perblock = int((d.naconmax + dim_block - 1) / dim_block)
 
